@@ -19,7 +19,7 @@ What is proved here:
 * `mirror_expression_roundtrip` — the same round trip for the **mirror itself**: the functions
   `Parse.expression / climb / climbLoop / atom / unaryExpression / primaryExpression` that the
   correspondence check runs against `parse_program`, driven by `Gen.prec`, read the minimal-parenthesis
-  token list of every expression tree over names, unary and binary operators (any size, any depth) back to
+  token list of every expression tree over names, unsigned integer literals, unary and binary operators (any size, any depth) back to
   exactly the tree the grammar actions build for it, with the fuel the driver really uses
   (`Parse.fuelFor`); `mirror_reads_any_parenthesisation` is the general form (redundant parentheses
   anywhere leave no node);
